@@ -59,6 +59,17 @@ CLAIMED = {
          "order-free specification (union grid + embedding) is applied to physt's result; operands are snapshotted before/after."),
    note=BASE_NOTE + "Modelled, not verified: np.allclose in has_same_bins (exact-rational transcription), dask chunk reduction "
         "(C17), _merge_meta_data."),
+ "C06": dict(
+   technique="Coq proofs of the field identities (cancel, chain, linear total, normalisation, moment invariance, refusal) + extracted-model correspondence",
+   text=("Theorems over exact rationals for histograms of any size/dimension: (h*c)/c reproduces contents, squared errors and "
+         "missed counters; chains of scalings multiply; total is linear; dividing by the total gives total 1; recorded mean, min, "
+         "max and variance are invariant under positive scaling while the weight scales by c; a negative factor on a positive "
+         "content is refused. The refinement statement is exercised on every generated chain: physt and the extracted model are "
+         "run step by step (h*c, c*h, h*=c, h/c, h/=c, normalize, partial_normalize, forbidden forms) and the extracted `laws` "
+         "predicate (the property's clauses per step, incl. line sums of partial_normalize and operand untouched) is applied to "
+         "physt's own output; exact for dyadic factors, tolerance 1e-11 (1e-6 with float32 scalars) otherwise."),
+   note=BASE_NOTE + "Float rounding for non-dyadic factors is bounded by the stated tolerance, not modelled; collection "
+        "normalize_bins/normalize_all are observed through C12/C18's collection cases only."),
  "C10": dict(
    technique="Coq proof (induction over arbitrary frequency lists / N-d arrays) + extracted-model correspondence",
    text=("Theorems (all sizes, all dimensions, closed under the global context): the min_frequency loop always yields a gap-free "
